@@ -82,6 +82,10 @@ class ExtMixin(object):
                 raise RaiseSignal(ExcV(ExtV("builtins.ValueError"), [v]), node)
         if isinstance(v, (Opaque, Phi, LookupV)):
             return Num(self.num(v, node))
+        if (isinstance(v, InstV) and v.ci.lookup("__float__") is None and v.ci.lookup("__index__") is None
+                and not any(type(c).__name__ == "ExternalClass" and c.name.split(".")[-1] != "object" for c in v.ci.mro())) \
+                or isinstance(v, (ListV, DictV, FuncV, ClassV)) or (isinstance(v, Const) and v.v is None):
+            raise RaiseSignal(ExcV(ExtV("builtins.TypeError"), [Const("float() argument must be a string or a real number")]), node)
         self.err(node, "float(%r)" % (v,))
 
     def x_int(self, args, kwargs, node, env):
@@ -568,6 +572,17 @@ class ExtMixin(object):
         self.write_to(f, StrV(SCat(parts)), node)
         return NONE
 
+    def x_sys_stdout_write(self, args, kwargs, node, env):
+        if kwargs or len(args) != 1:
+            self.err(node, "sys.stdout.write arguments")
+        self.write_to(self.stdout(), args[0], node)
+        return NONE
+
+    def x_sys_stderr_write(self, args, kwargs, node, env):
+        if kwargs or len(args) != 1:
+            self.err(node, "sys.stderr.write arguments")
+        return NONE
+
     def stdout(self):
         b = self.__dict__.get("_stdout")
         if b is None:
@@ -577,6 +592,9 @@ class ExtMixin(object):
 
     def write_to(self, f, s, node):
         if isinstance(f, BufV):
+            m = getattr(f, "mode", None)
+            if isinstance(m, Const) and isinstance(m.v, str) and not any(ch in m.v for ch in "wax+"):
+                raise RaiseSignal(ExcV(ExtV("io.UnsupportedOperation"), [Const("not writable")]), node)
             f.pieces.append(to_node(s))
             if f.is_file:
                 self.log_event(("write", f.name))
@@ -586,7 +604,14 @@ class ExtMixin(object):
         self.err(node, "write to %r" % (f,))
 
     def x_open(self, args, kwargs, node, env):
-        return BufV("open(%r)" % (args[0],), is_file=True)
+        if len(args) > 2 or set(kwargs) - {"mode", "encoding", "newline"}:
+            self.err(node, "open() arguments")
+        mode = args[1] if len(args) > 1 else kwargs.get("mode", Const("r"))
+        b = BufV("open(%r)" % (args[0],), is_file=True)
+        b.filename = args[0]
+        b.mode = mode
+        b.open_kwargs = dict(kwargs)
+        return b
 
     def x_io_StringIO(self, args, kwargs, node, env):
         return BufV("StringIO#%d" % next(self.fresh))
